@@ -286,6 +286,10 @@ def run(P, R, L):
     K.grd12_cursor_counts_complete_reads(P, R, L)
     K.grd12_fully_consumed_is_exact(P, R, L)
     K.bundle_recovery(P, R, L)
+    R.clause("GRD-20", "an existing database is never re-initialised because CURRENT could not be opened for a reason other than NotFound")
+    K.grd20_create_only_when_missing(P, R, L)
+    R.clause("GRD-21", "a failed manifest write removes only a manifest created by that very call, never the live one CURRENT names")
+    K.grd21_manifest_cleanup(P, R, L)
     R.not_decided += ["partial-write behaviour of the filesystem", "what recovery computes from a given on-disk image",
                       "batch atomicity at byte level (the reassembly clause is C12/TS-1)"]
     R.assumptions += ["FileSystem::rename is atomic; create_file(append=false) truncates",
